@@ -528,6 +528,14 @@ pub fn layout(b: &[u8], addpath4: bool, addpath6: bool) -> Layout {
                         lay.lens.push((q + 1, 1));
                         let cend = (q + 2 + b[q + 1] as usize).min(oend);
                         lay.items.push((q, cend));
+                        // inner length octets of the capability value: FQDN host / domain lengths
+                        if b[q] == 73 && q + 3 <= cend {
+                            lay.lens.push((q + 2, 1));
+                            let d = q + 3 + b[q + 2] as usize;
+                            if d < cend {
+                                lay.lens.push((d, 1));
+                            }
+                        }
                         q = cend;
                     }
                     p = oend;
@@ -569,6 +577,9 @@ pub fn layout(b: &[u8], addpath4: bool, addpath6: bool) -> Layout {
                         if b[p + 1] == 15 && p + hdr + 3 <= e {
                             let v6 = b[p + hdr + 1] == 2;
                             walk_nlri(b, p + hdr + 3, e, if v6 { addpath6 } else { addpath4 }, &mut lay);
+                        }
+                        if b[p + 1] == 26 && p + hdr + 3 <= e {
+                            lay.lens.push((p + hdr + 1, 2));
                         }
                         if b[p + 1] == 2 || b[p + 1] == 17 {
                             // segment count octets
@@ -862,7 +873,7 @@ fn mutate_nlri(r: &mut Rng, n: &[u8]) -> Vec<u8> {
             // poke one of the leading (length / type) octets with a boundary value
             if !b.is_empty() {
                 let i = r.below(4.min(b.len() as u64)) as usize;
-                b[i] = *r.pick(&[0u8, 1, 2, 3, 7, 8, 23, 24, 25, 32, 33, 64, 87, 88, 89, 120, 127, 128, 129, 216, 254, 255]);
+                b[i] = *r.pick(&[0u8, 1, 2, 3, 4, 5, 6, 7, 8, 23, 24, 25, 32, 33, 64, 87, 88, 89, 99, 120, 127, 128, 129, 216, 254, 255]);
             }
         }
         5 => {
@@ -914,6 +925,17 @@ pub fn gen_xbgp_case(r: &mut Rng, seeds: &[(u16, u8, String, Vec<u8>)]) -> Strin
         two: r.chance(1, 4),
         fams: if afi == 1 && safi == 1 { vec![(1, 1, addpath)] } else { vec![(1, 1, false), (afi, safi, addpath)] },
     };
+    // sometimes more than one family besides IPv4 unicast is negotiated
+    let mut desc = desc;
+    if r.chance(1, 3) {
+        for _ in 0..1 + r.below(2) {
+            let o = r.pick(seeds);
+            if !desc.fams.iter().any(|f| f.0 == o.0 && f.1 == o.1) {
+                let oap = r.chance(1, 4);
+                desc.fams.push((o.0, o.1, oap));
+            }
+        }
+    }
     let reach = match dir.as_str() {
         "unreach" => false,
         "reach" => true,
@@ -965,7 +987,7 @@ pub fn gen_xbgp_case(r: &mut Rng, seeds: &[(u16, u8, String, Vec<u8>)]) -> Strin
     }
     let chunks = if r.chance(3, 4) { vec![stream] } else { fragment(r, &stream) };
     // families whose NLRI decoder is transcribed (phase 2) are diffed against the model like any `bgp` case
-    let tag = if modelled_family(afi, safi) { "bgp" } else { "xbgp" };
+    let tag = if desc.all_modelled() { "bgp" } else { "xbgp" };
     format!("({} {} {})", tag, desc.term(), chunks_term(&chunks))
 }
 
@@ -1137,6 +1159,10 @@ pub fn gen_c03(seed: u64, n: usize, tier: &str) -> Vec<String> {
             out.push(gen_xbgp_case(&mut r, &seeds));
         }
     }
+    // the lazily-run attribute-body parsers (impl-only)
+    for _ in 0..n_bgp * 2 {
+        out.push(crate::wireattr::gen_attr_case(&mut r));
+    }
     out
 }
 
@@ -1219,16 +1245,23 @@ pub fn gen_c05_case(r: &mut Rng) -> String {
     if v4 {
         fams.push((1u16, 1u8, r.chance(1, 4)));
     }
+    // the IPv6 family of the MP attributes: unicast mostly, multicast sometimes; IPv4 multicast for IPv4-in-MP
+    let s6: u8 = if r.chance(1, 5) { 2 } else { 1 };
+    let s4: u8 = if r.chance(1, 4) { 2 } else { 1 };
     if v6 {
-        fams.push((2u16, 1u8, r.chance(1, 4)));
+        fams.push((2u16, s6, r.chance(1, 4)));
     }
     if fams.is_empty() {
         fams.push((1, 1, false));
     }
+    if v4 && s4 == 2 {
+        fams.push((1, 2, r.chance(1, 4)));
+    }
     let desc = CodecDesc { ext: r.chance(1, 4), two: r.chance(1, 3), fams };
     let has4 = desc.fams.iter().any(|f| f.0 == 1);
     let has6 = desc.fams.iter().any(|f| f.0 == 2);
-    let ap4 = desc.fams.iter().any(|f| f.0 == 1 && f.2);
+    let ap4 = desc.fams.iter().any(|f| f.0 == 1 && f.1 == 1 && f.2);
+    let ap4m = desc.fams.iter().any(|f| f.0 == 1 && f.1 == s4 && f.2);
     let ap6 = desc.fams.iter().any(|f| f.0 == 2 && f.2);
     let ebgp = r.chance(1, 2);
     let two = desc.two;
@@ -1245,16 +1278,16 @@ pub fn gen_c05_case(r: &mut Rng) -> String {
         6 => {
             let nh: Vec<u8> = if r.chance(2, 3) { V6_POOL[4].0.to_vec() } else { [V6_POOL[4].0, V6_POOL[5].0].concat() };
             let k = 1 + r.below(2) as usize;
-            format!("(mpr 2 1 {} {})", Term::bytes(&nh), c05_v6(r, ap6, k).join(" "))
+            format!("(mpr 2 {} {} {})", s6, Term::bytes(&nh), c05_v6(r, ap6, k).join(" "))
         }
         4 => {
             let k = 1 + r.below(2) as usize;
-            format!("(mpr 1 1 x0a000001 {})", c05_v4(r, ap4, k).join(" "))
+            format!("(mpr 1 {} x0a000001 {})", s4, c05_v4(r, ap4m, k).join(" "))
         }
         _ => "none".to_string(),
     };
     let ku = 1 + r.below(2) as usize;
-    let mpu = if mp_unreach { format!("(mpu 2 1 {})", c05_v6(r, ap6, ku).join(" ")) } else { "none".to_string() };
+    let mpu = if mp_unreach { format!("(mpu 2 {} {})", s6, c05_v6(r, ap6, ku).join(" ")) } else { "none".to_string() };
     let anything = announces || wd_n > 0 || mp_unreach;
 
     // attributes (flags, code, data)
@@ -1320,6 +1353,25 @@ pub fn gen_c05_case(r: &mut Rng) -> String {
         }
         if r.chance(1, 8) {
             attrs.push((0xc0, 40, vec![5, 0, 3, 0, 0, 0]));
+        }
+        // the types with canonical flags whose bodies are opaque at this layer: TUNNEL_ENCAP, BGP-LS
+        if r.chance(1, 6) {
+            attrs.push((0xc0, 23, vec![0, 8, 0, 6, 6, 4, 10, 0, 0, 1]));
+        }
+        if r.chance(1, 6) {
+            // sometimes longer than 255 bytes: extended length
+            if r.chance(1, 3) {
+                let mut v = vec![4u8, 2, 1, 0];
+                v.extend(std::iter::repeat(0x41u8).take(256));
+                attrs.push((0x90, 29, v));
+            } else {
+                attrs.push((0x80, 29, vec![4, 2, 0, 2, b'r', b'1']));
+            }
+        }
+        // a long value on an ordinary attribute (extended-length branch of the attribute loop)
+        if r.chance(1, 10) && !attrs.iter().any(|a| a.1 == 8) {
+            let v: Vec<u8> = (0..260).map(|i| if i % 4 == 3 { (i / 4) as u8 } else { 0xff }).collect();
+            attrs.push((0xd0, 8, v));
         }
     }
     if !anything {
